@@ -1,3 +1,5 @@
+#[cfg(mos_verif_threads)]
+use mos_simrt::std_shim as std;
 use crate::parser::{AddressingMode, IndexRegister, Mnemonic};
 use smallvec::SmallVec;
 
